@@ -20,7 +20,8 @@ GEN = ['FileNames', 'SpecPaths', 'IoShapes']
 RULE = ('each array case draws a dtype from {float16/32/64, int8..64, uint8..64}, rows 0..6, cols 1..8, random bit patterns '
         '(NaN payloads, inf, -0.0 included), a memory layout (C contiguous, Fortran ordered, strided view, big-endian view), a '
         'storage (file, tar or depth), a feature kind and a history (first write / overwrite of a same-shape array read before / '
-        'overwrite of a LONGER file); each path case draws nested / dotted / spaced / unicode image names; distinct '
+        'overwrite of a LONGER file / of an array equal as numbers but not in bits); tar reads are followed by the read of a second, '
+        'smaller member through the same handler; each path case draws nested / dotted / spaced / unicode image names; distinct '
         'non-trivial = distinct (dtype, layout, storage, rows>0) for arrays and distinct names for paths')
 ASSUMPTIONS = [
     'numpy.tofile / tobytes / fromfile / frombuffer are raw row-major dumps of the (converted) array; tarfile stores member bytes verbatim',
@@ -174,12 +175,18 @@ def run_real(c):
                         with TarHandler(tp, 'a') as th:
                             writer(kf.get_features_fullpath(cls, 'T', base, c['image'], th),
                                    previous_array(c, a, dt) if c['rewrite'] == 'twin' else np.zeros((c['rows'] + 2, c['cols']), dtype=dt))
+                    other_image = 'other_' + c['image']
                     with TarHandler(tp, 'a') as th:
                         writer(kf.get_features_fullpath(cls, 'T', base, c['image'], th), a)
+                        # a second image of the same archive, no larger than the first
+                        writer(kf.get_features_fullpath(cls, 'T', base, other_image, th),
+                               np.full((max(c['rows'] - 1, 0), c['cols']), 1, dtype=dt))
                     with TarHandler(tp, 'r') as th:
                         member = kf.get_features_fullpath(cls, 'T', base, c['image'], th)
                         raw = th.fid.extractfile(th.content[member[0]]).read()
                         back = reader(member, dt.type, c['cols'])
+                        # what a reader returned is the caller's: reading ANOTHER member through the same handler must not change it
+                        reader(kf.get_features_fullpath(cls, 'T', base, other_image, th), dt.type, c['cols'])
                 elif c['storage'] == 'depthmap':
                     src = np.array(a, dtype=np.float64).astype(np.dtype(c['src_dtype']))
                     if c['layout'] == 'bigendian' and src.dtype.itemsize > 1:
